@@ -293,7 +293,7 @@ func OracleC11(r *Run) []Problem {
 					add("records-differ-from-deliveries", "a%d %s: %d Shell I/O records but %d deliveries; first difference at #%d: record %q, delivery %q", n, d, len(io), len(del), k, gi, gd)
 				}
 			case "refused":
-				if ai.AfterNoMore {
+				if ai.AfterNoMore[d] {
 					if len(recs) != 0 {
 						add("record-during-shutdown", "a%d %s refused by shutdown has records: %v", n, d, msgs(recs))
 					}
